@@ -42,7 +42,8 @@ func isFreshBytes(v ssa.Value) bool {
 	return false
 }
 
-func runC06(c *Ctx, r *Report) {
+// c06r1: buffer hand-off safety in Reader.feed (shared with C07 and C13: items must never change after they were read).
+func c06r1(c *Ctx, r *Report) {
 	l := c.L
 	feed := l.Fn("fzf", "(*Reader).feed")
 	fPusher := l.Field("fzf", "Reader", "pusher")
@@ -255,6 +256,11 @@ func runC06(c *Ctx, r *Report) {
 			}
 		}
 	}
+}
+
+func runC06(c *Ctx, r *Report) {
+	l := c.L
+	c06r1(c, r)
 
 	// ---------------- R2 ----------------
 	r.rule("C06-R2", "A + B + C", "P1",
@@ -324,6 +330,7 @@ func runC06(c *Ctx, r *Report) {
 		})
 	}
 	r.floor("item builders", nB, 2)
+	c06round2(c, r)
 }
 
 func checkBuilder(r *Report, b *ssa.Function) {
@@ -696,4 +703,6 @@ func runC10(c *Ctx, r *Report) {
 	}
 	r.floor("accumulating edges of the prefix length", n, 1)
 	_ = sort.Strings
+	c10r4(c, r)
+	c08r5(c, r) // --nth tokens cached per item are revision-checked
 }
